@@ -1,5 +1,6 @@
 import Verif.Lemmas.Await
 import Verif.Lemmas.Token
+import Verif.Model.ClientApi
 import Verif.Gen.Timing
 
 /-! # C14 — deadlines, cancellation and progress behave the same under any traffic
@@ -310,5 +311,52 @@ example : (run (fun _ => true) { exCfg with writer := .stalledUntil 1500 } []).o
     ∧ (run (fun _ => true) { exCfg with writer := .stalledUntil 1500 } []).writes = [.request, .cancelNotif]
     ∧ (run (fun _ => true) { exCfg with writer := .stalledUntil 5000 } []).outcome = .timedOut := by
   simp [exCfg, run, loop, onCancel, cancelVisible, Verif.Gen.Timing.pollMs]
+
+/-! ## The high-level client: a call is bounded by the two timeouts it runs under -/
+open Verif.Model.ClientApi in
+/-- Whatever arrives on the connection (and whatever earlier calls left in the stream), a call of
+`MCPClient` ends no later than the `initialize` timeout plus its own request's timeout after it
+started — the request's timeout alone once the client is initialized; the `initialize` request and
+the call's own request each respect their deadline. -/
+theorem c14_client_call_bounded (R : Int → Bool) (okInit : α → Bool) (b : Bool) (start used : Nat)
+    (ev : List (Nat × In α)) (calls : List (Call α)) :
+    ∀ x ∈ (clientSeq R okInit b start used ev calls).zip calls,
+      (∀ oi, x.1.init = some oi → oi.time ≤ x.2.init.D)
+      ∧ (∀ s u o, x.1.req = some (s, u, o) → o.time ≤ x.2.req.D
+          ∧ s + o.time ≤ x.1.start + (if x.1.init.isSome then x.2.init.D else 0) + x.2.req.D) := by
+  induction calls generalizing b start used with
+  | nil => simp [clientSeq]
+  | cons c rest ih =>
+    intro x hx
+    cases b with
+    | true =>
+      simp only [clientSeq, List.zip_cons_cons, List.mem_cons] at hx
+      rcases hx with rfl | hx
+      · refine ⟨by simp, ?_⟩
+        intro s u o h
+        simp only [Option.some.injEq, Prod.mk.injEq] at h
+        obtain ⟨rfl, rfl, rfl⟩ := h
+        have := c14_deadline R c.req (shift start (ev.drop used))
+        simp; omega
+      · exact ih _ _ _ x hx
+    | false =>
+      simp only [clientSeq] at hx
+      split at hx
+      · simp only [List.zip_cons_cons, List.mem_cons] at hx
+        rcases hx with rfl | hx
+        · have h1 := c14_deadline R c.init (shift start (ev.drop used))
+          refine ⟨by intro oi h; simp at h; subst h; exact h1, ?_⟩
+          intro s u o h
+          simp only [Option.some.injEq, Prod.mk.injEq] at h
+          obtain ⟨rfl, rfl, rfl⟩ := h
+          have h2 := c14_deadline R c.req (shift (start + (run R c.init (shift start (ev.drop used))).time)
+            (ev.drop (used + (run R c.init (shift start (ev.drop used))).consumed)))
+          simp; omega
+        · exact ih _ _ _ x hx
+      · simp only [List.zip_cons_cons, List.mem_cons] at hx
+        rcases hx with rfl | hx
+        · have h1 := c14_deadline R c.init (shift start (ev.drop used))
+          exact ⟨by intro oi h; simp at h; subst h; exact h1, by simp⟩
+        · exact ih _ _ _ x hx
 
 end Verif.Props.C14
